@@ -48,7 +48,7 @@ struct State {
 	long requests = 0;              // allocation requests issued while tracking (heap + mappings)
 	long failed = 0;
 	Class cls[64]; unsigned ncls = 0;
-	Mapping maps[256]; unsigned nmaps = 0;
+	Mapping maps[1024]; unsigned nmaps = 0;
 	long live_blocks = 0; long live_bytes = 0; long live_map_bytes = 0;
 	long short_unmaps = 0; long bad_frees = 0;
 	long wx_events = 0; char wx_what[160] = { 0 };     // W+X requested on a library mapping (any owner)
@@ -159,7 +159,7 @@ inline void* map(void* addr, size_t len, int prot, int flags, int fd, off_t off)
 	size_t plen = (len + 4095) & ~(size_t)4095;
 	uint8_t* at = nullptr; Mapping* slot = nullptr;
 	if (s.reuse_maps) for (int i = (int)s.nmaps - 1; i >= 0; --i) if (!s.maps[i].live && s.maps[i].live_len == 0 && ((s.maps[i].len + 4095) & ~(size_t)4095) == plen) { at = s.maps[i].addr; slot = &s.maps[i]; break; }
-	if (!at) { at = s.marena + s.mbump + 4096; s.mbump += plen + 8192; if (s.nmaps >= 256 || s.mbump > MARENA) { errno = ENOMEM; return MAP_FAILED; } slot = &s.maps[s.nmaps++]; }
+	if (!at) { at = s.marena + s.mbump + 4096; s.mbump += plen + 8192; if (s.nmaps >= 1024 || s.mbump > MARENA) { static const char m[] = "envalloc: the harness' mapping table / arena is exhausted (framework limit, not a library failure)\n"; if (write(2, m, sizeof m - 1)) {} _exit(3); } slot = &s.maps[s.nmaps++]; }
 	void* r = (void*)syscall(SYS_mmap, at, plen, prot, (flags & ~(MAP_HUGETLB | MAP_POPULATE)) | MAP_FIXED, -1, 0);
 	if (r == MAP_FAILED) return r;
 	*slot = Mapping{ at, len, len, 0, huge, true, s.cur_owner }; note_prot(*slot, prot, "mmap");
